@@ -258,3 +258,47 @@ for _maxit, _x0 in ((1, False), (2, False), (2, True), (3, True)):
         if with_x0:
             ctx.prove('initial_guess_untouched', z3.And(*[V.z(V.cmp('==', x0.data[i], ctx.sym(f'g{i}', 'real'))) for i in range(n)]))
         ctx.prove('arguments_untouched', z3.And(*[V.z(V.cmp('==', b.data[i], bv[i])) for i in range(n)]))
+
+
+for _kind, _norm in (('real', False), ('complex', False)):
+    @harness(P, f'orth.orthogonal_basis[{_kind},normalize={_norm}]', targets=[f'{IT}:orth'], timeout=30000)
+    def h_orth(ctx, it, kind=_kind, norm=_norm):
+        """block CG orthogonalises its search directions with orth(): for two input columns (n = 2, symbolic real / complex entries) the second returned
+        vector is orthogonal to the first in the Hermitian inner product  sum_k v1_k conj(v2_k) = 0, the first is the first input (normalised on
+        request), and the span is kept: v2 = u2 - c v1.  (Rank-deficient inputs drop a column: that path is left to the bounded stand-in)"""
+        n = 2
+        ctx.safety_on = False
+        ctx.feasible_timeout_ms = 300
+
+        def sym(nm):
+            return _Cx(ctx.sym(nm + 'r', 'real'), ctx.sym(nm + 'i', 'real')) if kind == 'complex' else ctx.sym(nm, 'real')
+        U = _np.array([[sym(f'u{i}{j}') for j in range(2)] for i in range(n)], dtype=object)
+        u = CArr(U.copy(), kind)
+        V.COMPLEX_ORDER = 'numpy'          # every complex value inside orth is a numpy value (results of array operations)
+        n1 = 0
+        for a_ in [U[i, 0] for i in range(n)]:
+            n1 = V.add(n1, V.real_part(V.mul(a_, V.conj(a_))))
+        n2 = 0
+        for a_ in [U[i, 1] for i in range(n)]:
+            n2 = V.add(n2, V.real_part(V.mul(a_, V.conj(a_))))
+        ctx.assume(z3.And(V.z(V.cmp('!=', n1, 0)), V.z(V.cmp('!=', n2, 0))))          # non-zero input columns
+        v = it.call(it.get_function(f'{IT}:orth'), [u], dict(normalize=norm))
+        if not (isinstance(v, CArr) and tuple(v.shape) == (n, 2)):
+            ctx.prove('rank_deficient_path_drops_a_column', isinstance(v, CArr) and v.shape[0] == n and v.shape[1] < 2)
+            return
+        v1, v2 = [v.data[i, 0] for i in range(n)], [v.data[i, 1] for i in range(n)]
+        ip = 0
+        for a_, b_ in zip(v1, v2):
+            ip = V.add(ip, V.mul(a_, V.conj(b_)))
+        from .C11 import eqc as _eqc
+        if not norm:
+            ctx.prove('first_vector_is_first_input', z3.And(*[_eqc(v1[i], U[i, 0]) for i in range(n)]))
+            # v1^H v2 = 0  <=>  (v1 . conj v2) * |v1|^2 = 0: multiply the quotient out (|v1|^2 != 0)
+            lhs = V.mul(ip, n1)
+            from .C01 import poly_zero_full
+            parts = (lhs.re, lhs.im) if isinstance(lhs, _Cx) else (lhs,)
+            ok = all((not V.is_sym(p_) and p_ == 0) or (V.is_sym(p_) and poly_zero_full(V.zreal(p_))) for p_ in parts)
+            ctx.prove('second_vector_orthogonal_to_first', True if ok else _eqc(ip, 0))
+        else:
+            ctx.prove('second_vector_orthogonal_to_first', _eqc(ip, 0))
+        ctx.prove('argument_untouched', z3.And(*[_eqc(u.data[i, j], U[i, j]) for i in range(n) for j in range(2)]))
